@@ -2,7 +2,7 @@
 import json
 
 from ..common import C, ZInt, cli_map, run_coq_eval, txt, untxt
-from ..vic_lang import Gen
+from ..vic_lang import Gen, dec
 
 IMPORTS = ["Base.Prelude", "Model.Vic", "Model.Obs"]
 
@@ -100,7 +100,7 @@ def run(chk, binary):
         if kind == 1:
             dist["reference_error"] += 1      # the generator slipped outside the well-defined core: not compared
             continue
-        exp = untxt(mout)
+        exp = dec(untxt(mout))
         if rc == "timeout":
             chk.violation("spec:program did not terminate", dict(case, reference_output=exp))
             continue
